@@ -67,6 +67,12 @@ def _opts(draw, fn, names, has_layer, src=None):
     return o
 
 
+# designspace-level font info overrides for the variable font (applied by the post-processor from a temporary font)
+VF_INFO = st.fixed_dictionaries({}, optional={"familyName": st.sampled_from(["VF Family", "Variable"]), "styleName": st.sampled_from(["Roman", "Thin"]), "openTypeOS2WeightClass": st.integers(100, 900),
+                                              "versionMinor": st.integers(1, 9), "openTypeOS2Selection": st.sampled_from([[7], [8], [7, 8]]), "openTypeNameDesigner": st.sampled_from(["D", "Dé"]),
+                                              "openTypeHheaAscender": st.integers(700, 900), "italicAngle": st.sampled_from([0, -9.5])}).filter(bool)
+
+
 @st.composite
 def _case(draw):
     module = draw(st.sampled_from(["ufoLib2", "defcon"]))
@@ -97,6 +103,8 @@ def _case(draw):
         fam["lib"] = {"public.skipExportGlyphs": [draw(st.sampled_from(names))], "com.example": {"a": [1, 2.0]}}
     if F.chance(draw, 1, 4):
         fam["unnamed_sources"] = True
+    if F.chance(draw, 1, 4):
+        fam.setdefault("lib", {})["public.fontInfo"] = draw(VF_INFO)
     ops = []
     for _ in range(draw(st.integers(1, 3))):
         fn = draw(st.sampled_from(DS_FUNCS))
@@ -148,6 +156,11 @@ def make_options(opts):
             kw[k] = fl
         elif k == "debugFeatureFile":
             kw[k] = io.StringIO()
+        elif k == "ftConfig":
+            # "<name>@option" stands for fontTools' Option constant (what ufo2ft itself and fontmake use as the key), a plain name for the string form
+            from fontTools.otlLib.optimize.gpos import COMPRESSION_LEVEL
+
+            kw[k] = {(COMPRESSION_LEVEL if name == COMPRESSION_LEVEL.name + "@option" else name): val for name, val in v.items()}
         else:
             kw[k] = v
     return kw
@@ -253,6 +266,8 @@ def run_case(case, ctx):
     src = case.get("spec") or case["fam"]["base"]
     lib = src.get("lib", {})
     ctx.label(case["kind"])
+    if case["kind"] == "family" and "public.fontInfo" in case["fam"].get("lib", {}):
+        ctx.label("designspace-fontinfo-override")
     if raised:
         ctx.label("call-raised")
     if len(case["ops"]) >= 2:
